@@ -36,6 +36,27 @@ def parse(cleaned):
         return None
 
 
+def userinfo_brackets(cleaned):
+    """a raw '[' or ']' in the userinfo of an authority urlsplit accepts: no URL (RFC 3986
+    3.2.1) although CPython lets it through (its bracket check reads the text between the
+    first '[' of the netloc and the next ']', wherever they stand); canonicalize_url rejects
+    it with ValueError since FX-C01-ca9f3e6"""
+    try:
+        ui = urlsplit(cleaned).netloc.rpartition("@")[0]
+    except ValueError:
+        return False
+    return "[" in ui or "]" in ui
+
+
+def parse_canon(cleaned):
+    """what canonicalize_url accepts: the real parser's record, None when the parser or
+    canonicalize_url's own check of the userinfo rejects the authority"""
+    p = parse(cleaned)
+    if p is not None and userinfo_brackets(cleaned):
+        return None
+    return p
+
+
 def puny_table(hostname):
     from ural.utils import attempt_to_decode_idna
 
